@@ -463,10 +463,20 @@ func (channel *Channel) SendContent(method amqp.Method, message *amqp.Message) *
 
 	channel.sendOutgoing(&amqp.Frame{Type: byte(amqp.FrameHeader), ChannelID: channel.id, Payload: payload, CloseAfter: false})
 
-	for _, payload := range message.Body {
+	// the stored body frames are shared by every copy of the message and were cut to the publisher's
+	// frame-max: send copies under this channel's id, cut to the frame-max this connection negotiated
+	maxPayload := 0
+	if channel.conn.maxFrameSize > 8 {
+		maxPayload = int(channel.conn.maxFrameSize) - 8
+	}
+	for _, frame := range message.Body {
 		verifhook.At("send.beforeBody")
-		payload.ChannelID = channel.id
-		channel.sendOutgoing(payload)
+		body := frame.Payload
+		for maxPayload > 0 && len(body) > maxPayload {
+			channel.sendOutgoing(&amqp.Frame{Type: frame.Type, ChannelID: channel.id, Payload: body[:maxPayload]})
+			body = body[maxPayload:]
+		}
+		channel.sendOutgoing(&amqp.Frame{Type: frame.Type, ChannelID: channel.id, Payload: body})
 	}
 
 	switch method.(type) {
